@@ -327,6 +327,14 @@ class SumAggregator:
         if trigger is None:
             return [minimize]
         trigger_lit, trigger_index, trigger_anon_pred = trigger
+        # the group arguments become part of the tuple: this only keeps the set semantics if the tuple already tells them apart
+        tuple_vars = [var.name for term in [minimize.priority] + list(minimize.terms) for var in collect_ast(term, "Variable")]
+        for pos, arg in enumerate(trigger_lit.atom.symbol.arguments):
+            if pos in trigger_anon_pred.annotated_positions:
+                continue
+            if any(var.name != "_" and var.name not in tuple_vars for var in collect_ast(arg, "Variable")):
+                log.info(f"Cannot optimize {loc2str(minimize.location)} as the tuple does not contain all group variables.")
+                return [minimize]
         log.info(f"Replace {trigger_anon_pred.pred.name}/{trigger_anon_pred.pred.arity} inside an objective function.")
 
         old_condition = minimize.body
